@@ -22,6 +22,7 @@ type SKnobs struct {
 	LogDebug    bool   `json:"log_debug"`
 	Crashes     int    `json:"crashes"`
 	RangeMode   int    `json:"range_mode"`
+	PChMode     int    `json:"pch_mode,omitempty"`  // numbering of the source pchannels, see srcPCh
 	DoneMode    int    `json:"done_mode,omitempty"` // 1: loops that find their context cancelled always stop at once; 0: seeded coin
 }
 
@@ -95,7 +96,27 @@ type SScript struct {
 
 const replicateChan = "by-dev-replicate-msg"
 
-func srcPCh(i int) string { return fmt.Sprintf("by-dev-rootcoord-dml_%d", i) }
+// Source pchannel of shard i. The numbering is a knob of the scenario (SKnobs.PChMode): real clusters have sixteen DML
+// channels, so names that are prefixes of one another (dml_1, dml_10) do occur together.
+var pchNumbering = [][]int{{0, 1}, {1, 10}, {10, 1}}
+var pchMode = 0
+
+func srcPCh(i int) string {
+	if i < len(pchNumbering[pchMode]) {
+		return fmt.Sprintf("by-dev-rootcoord-dml_%d", pchNumbering[pchMode][i])
+	}
+	return fmt.Sprintf("by-dev-rootcoord-dml_%d", i)
+}
+
+// shardOfSrcPCh is the inverse of srcPCh, -1 for a foreign name.
+func shardOfSrcPCh(p string) int {
+	for i := 0; i < 16; i++ {
+		if srcPCh(i) == p {
+			return i
+		}
+	}
+	return -1
+}
 
 // GenS generates a whole-server scenario for one property.
 func GenS(rng *Rng, prop, variant, tier string) *SScript {
@@ -115,6 +136,10 @@ func GenS(rng *Rng, prop, variant, tier string) *SScript {
 	k.ClockW = Pick(rng, []int{1, 2, 4})
 	k.RangeMode = rng.Intn(3)
 	k.LogDebug = prop == "C18"
+	if (prop == "C05" || prop == "C06") && rng.Pct(30) {
+		k.PChMode = rng.Range(1, 2)
+	}
+	pchMode = k.PChMode
 
 	ts := int64(2000)
 	logical := int64(0)
